@@ -161,6 +161,10 @@ theorem requestStatus_inv13 (req) : Rel inv13Pre (requestStatus req) := by
   unfold requestStatus
   inv13_walk []
 
+theorem failOnError_inv13 : Rel inv13Pre failOnError := by
+  unfold failOnError
+  inv13_walk [requestStatus_inv13 _]
+
 theorem getTask_inv13 (k) : Rel inv13Pre (getTask E k) := by
   unfold getTask
   inv13_walk []
@@ -175,7 +179,7 @@ theorem nextTaskFor_inv13 (sx) : Rel inv13Pre (nextTaskFor E sx) := by
 
 theorem nextFrom_inv13 (todo) : Rel inv13Pre (nextFrom E todo) := by
   unfold nextFrom
-  inv13_walk [nextTaskFor_inv13 E _, requestStatus_inv13 _]
+  inv13_walk [nextTaskFor_inv13 E _, requestStatus_inv13 _, failOnError_inv13]
 
 theorem getNextTasks_inv13 : Rel inv13Pre (getNextTasks E) :=
   ⟨fun c => (nextFrom_inv13 E (nextTodo c.st)).run c⟩
@@ -190,11 +194,11 @@ theorem stageNext_inv13 (k idx e o acc) : Rel inv13Pre (stageNext k idx e o acc)
 
 theorem fireTransition_inv13 (k idx ec acc e) : Rel inv13Pre (fireTransition E k idx ec acc e) := by
   unfold fireTransition
-  inv13_walk [requestStatus_inv13 _, stageNext_inv13 _ _ _ _ _]
+  inv13_walk [requestStatus_inv13 _, failOnError_inv13, stageNext_inv13 _ _ _ _ _]
 
 theorem processTransition_inv13 (k idx ec acc e) : Rel inv13Pre (processTransition E k idx ec acc e) := by
   unfold processTransition
-  inv13_walk [requestStatus_inv13 _, fireTransition_inv13 E _ _ _ _ _]
+  inv13_walk [requestStatus_inv13 _, failOnError_inv13, fireTransition_inv13 E _ _ _ _ _]
 
 theorem makeTaskContext_inv13 (k idx r) : Rel inv13Pre (makeTaskContext k idx r) := by
   unfold makeTaskContext
@@ -204,9 +208,9 @@ theorem noteEvent_inv13 (k s ev) : Rel inv13Pre (noteEvent k s ev) := by
   unfold noteEvent
   inv13_walk []
 
-theorem completedRetryDecision_inv13 (k idx ts ns ev) : Rel inv13Pre (completedRetryDecision E k idx ts ns ev) := by
+theorem completedRetryDecision_inv13 (k idx ts os ns ev) : Rel inv13Pre (completedRetryDecision E k idx ts os ns ev) := by
   unfold completedRetryDecision
-  inv13_walk [makeTaskContext_inv13 _ _ _, requestStatus_inv13 _]
+  inv13_walk [makeTaskContext_inv13 _ _ _, requestStatus_inv13 _, failOnError_inv13]
 
 theorem evalTransitions_inv13 (k idx ts ev) : Rel inv13Pre (evalTransitions E k idx ts ev) := by
   unfold evalTransitions
@@ -222,7 +226,7 @@ theorem terminalContext_inv13 : Rel inv13Pre terminalContext := by
 
 theorem renderOutput_inv13 : Rel inv13Pre (renderOutput E) := by
   unfold renderOutput
-  inv13_walk [terminalContext_inv13, requestStatus_inv13 _]
+  inv13_walk [terminalContext_inv13, requestStatus_inv13 _, failOnError_inv13]
 
 /-! ### new records start with tally 0 -/
 
@@ -245,7 +249,7 @@ theorem newRecord_retryOk (c : Cond) (k : TaskKey) (a : List Nat) (b : List (Tra
 
 theorem addTaskState_inv13 (k a b) : Rel inv13Pre (addTaskState E k a b) := by
   unfold addTaskState
-  inv13_walk [requestStatus_inv13 _]
+  inv13_walk [requestStatus_inv13 _, failOnError_inv13]
   -- the append
   all_goals (
     rename_i c0 _ _ c1
